@@ -14,14 +14,54 @@ import (
 	"bytes"
 	"fmt"
 	"os"
+	"runtime"
 	"strconv"
 
 	"github.com/goose-lang/goose/machine/disk"
+	"github.com/goose-lang/goose/machine/filesys"
 )
+
+// the main goroutine stays on the main OS thread, so that the ordinal numbers
+// of its system calls (strace inject=...:when=k counts per thread) are stable
+func init() { runtime.LockOSThread() }
 
 func blk(b byte) []byte { return bytes.Repeat([]byte{b}, 4096) }
 
+// ac <root> <dir> <name> <len> <tag>: one DirFs.AtomicCreate of len bytes of data derived from tag
+func acData(n int, tag byte) []byte {
+	b := make([]byte, n)
+	for i := range b {
+		b[i] = tag + byte(i%7)
+	}
+	return b
+}
+
+func acMain() {
+	root, dir, name := os.Args[2], os.Args[3], os.Args[4]
+	n, _ := strconv.Atoi(os.Args[5])
+	tag := os.Args[6][0]
+	defer func() {
+		if r := recover(); r != nil {
+			fmt.Printf("OUTCOME panic %v\n", r)
+			os.Exit(0)
+		}
+	}()
+	fs := filesys.NewDirFs(root)
+	fmt.Println("STEP atomiccreate")
+	fs.AtomicCreate(dir, name, acData(n, tag))
+	fmt.Println("OUTCOME returned")
+}
+
 func main() {
+	if os.Args[1] == "ac" {
+		acMain()
+		return
+	}
+	if os.Args[1] == "acdata" { // print the data a call would write (for the checker)
+		n, _ := strconv.Atoi(os.Args[2])
+		os.Stdout.Write(acData(n, os.Args[3][0]))
+		return
+	}
 	scenario, path := os.Args[1], os.Args[2]
 	n, _ := strconv.ParseUint(os.Args[3], 10, 64)
 	defer func() {
